@@ -1,2 +1,162 @@
-// Package c13: monitor for property C13 (see DESIGN.md section 2).
+// Package c13: monitor for property C13 — SQL transactions are atomic and isolated,
+// including rollback and savepoints (see DESIGN.md section 2).
+//
+// One case = one fresh database, 1–6 concurrent sessions, each running a list of PRNG
+// transaction programs through the engine API. Everything the engine reports per statement
+// (rows, cumulative affected rows, generated keys, error class) is recorded together with
+// store tx ids bounding when the snapshot can have been taken; after the sessions finished
+// the records are judged against internal/sqlmodel (oracle.go).
 package c13
+
+import (
+	"context"
+	"encoding/json"
+	"fmt"
+	"time"
+
+	"github.com/codenotary/immudb/embedded/sql"
+	"github.com/codenotary/immudb/embedded/store"
+
+	"verifharness/internal/fw"
+	m "verifharness/internal/sqlmodel"
+	"verifharness/internal/sth"
+)
+
+func init() {
+	fw.RegisterMonitor("C13", "exploration", Run)
+	fw.RegisterIsolated("c13-engine", engineCase)
+}
+
+type caseSpec struct {
+	Idx      int
+	Sessions int
+	TxPer    int
+	Variant  int
+}
+
+func openDB(c *fw.Ctx, name string) (*db, error) {
+	st, err := store.Open(c.Dir(name), store.DefaultOptions().WithMultiIndexing(true).WithSynced(false).
+		WithMaxConcurrency(16).WithMaxTxEntries(256).WithMaxKeyLen(256).WithLogger(sth.QuietLogger()))
+	if err != nil {
+		return nil, err
+	}
+	eng, err := sql.NewEngine(st, sql.DefaultOptions().WithPrefix([]byte{2}))
+	if err != nil {
+		st.Close()
+		return nil, err
+	}
+	return &db{st: st, eng: eng, sch: map[string]*m.Schema{}}, nil
+}
+
+// setup creates the tables and the initial rows, in the engine and in the model.
+func setup(d *db, r interface{ IntN(int) int }, variant int) (*m.DB, error) {
+	init := m.NewDB()
+	tx := m.Begin(init, false)
+	ctx := context.Background()
+	for _, s := range schemas(variant) {
+		d.sch[s.Name] = s
+		st := &m.Stmt{Kind: m.Create, Schema: s}
+		if _, _, err := d.eng.Exec(ctx, nil, st.SQL(nil), nil); err != nil {
+			return nil, err
+		}
+		tx.Exec(st)
+		n := 3 + r.IntN(5)
+		ins := &m.Stmt{Kind: m.Insert, Table: s.Name, Cols: colNames(s)}
+		if s.AutoInc {
+			ins.Cols = ins.Cols[1:]
+		}
+		for i := 0; i < n; i++ {
+			row := []m.Val{}
+			for _, cn := range ins.Cols {
+				col := s.Cols[s.ColIdx(cn)]
+				switch {
+				case cn == "id":
+					row = append(row, int64(i+1))
+				case col.Kind == m.Int:
+					row = append(row, int64(r.IntN(10)))
+				case col.Kind == m.Str:
+					row = append(row, fmt.Sprintf("init.%s.%d", s.Name, i))
+				default:
+					if r.IntN(4) == 0 {
+						row = append(row, nil)
+					} else {
+						row = append(row, r.IntN(2) == 0)
+					}
+				}
+			}
+			ins.Rows = append(ins.Rows, row)
+		}
+		if _, _, err := d.eng.Exec(ctx, nil, ins.SQL(s), nil); err != nil {
+			return nil, err
+		}
+		if res := tx.Exec(ins); res.Err != "" {
+			return nil, fmt.Errorf("model rejected the setup: %s", res.Err)
+		}
+	}
+	return tx.DB, nil
+}
+
+func engineCase(c *fw.Ctx, data []byte) {
+	var cs caseSpec
+	if err := json.Unmarshal(data, &cs); err != nil {
+		c.Inconclusive("bad case: " + err.Error())
+		return
+	}
+	if e := m.SelfCheck(); e != "" {
+		c.Inconclusive("sqlmodel self-check failed: " + e)
+		return
+	}
+	tag := fmt.Sprintf("case%d", cs.Idx)
+	r := fw.NewRand(c.Seed, "c13/"+tag)
+	d, err := openDB(c, "db")
+	if err != nil {
+		c.Inconclusive("open: " + err.Error())
+		return
+	}
+	defer d.st.Close()
+	init, err := setup(d, r, cs.Variant)
+	if err != nil {
+		c.Inconclusive("setup: " + err.Error())
+		return
+	}
+	sch := schemas(cs.Variant)
+	progs := make([][]*txProg, cs.Sessions)
+	for s := range progs {
+		sr := fw.NewRand(c.Seed, fmt.Sprintf("c13/%s/session%d", tag, s))
+		readOnlySession := cs.Sessions > 1 && s == cs.Sessions-1 && cs.Idx%2 == 0
+		for i := 0; i < cs.TxPer; i++ {
+			ro := readOnlySession || sr.IntN(6) == 0
+			progs[s] = append(progs[s], genProg(sr, sch, fmt.Sprintf("%d.%d.%d", cs.Idx, s, i), s, cs.Sessions > 1, ro))
+		}
+	}
+	base := d.st.LastCommittedTxID()
+	obs := d.runSessions(progs)
+	if d.stuck.Load() {
+		c.Inconclusive(fmt.Sprintf("[%s] %v", tag, d.why.Load()))
+		return
+	}
+	checkCase(c, d, tag, cs.Sessions, base, init, obs)
+	if cs.Idx == 0 && len(obs) > 0 {
+		o := obs[0]
+		c.Sample(map[string]any{"case": tag, "sessions": cs.Sessions, "program": o.Prog.text(d.sch), "outcome": o.outcome(), "store_tx": o.HeaderID})
+	}
+}
+
+func Run(c *fw.Ctx) {
+	c.Rule = "PRNG transaction programs (INSERT/UPSERT/UPDATE/DELETE/SELECT/COUNT, injected statement failures, SAVEPOINT/ROLLBACK TO/RELEASE nested up to 3, COMMIT/ROLLBACK/Cancel, one-call scripts) in 1-6 concurrent engine sessions incl. read-only ones on a fresh database per case; per statement rows, cumulative affected rows and generated keys must equal internal/sqlmodel run on the state at the commit position (committed) or on ONE committed state between BEGIN and the first read (uncommitted); final contents equal the model of the committed transactions; distinct = (mode × statement kinds × savepoint depth × rollback-after-DML × failure position × end × sessions × outcome) observed"
+	c.Assume("serializability in commit order (C05): a committed read-write transaction behaves as if run on the state left by the store transactions with smaller ids")
+	c.Assume("the AUTO_INCREMENT counter is not given back by ROLLBACK TO SAVEPOINT (as PostgreSQL sequences); savepoint names are unique and never reused after ROLLBACK TO / RELEASE")
+	c.Assume("a failed statement aborts the whole transaction (Engine.ExecPreparedStmts cancels it)")
+	r := c.Rand("c13/cases")
+	n := c.N(150, 5000)
+	var cases [][]byte
+	for i := 0; i < n; i++ {
+		cs := caseSpec{Idx: i, Sessions: 1 + r.IntN(6), TxPer: 4 + r.IntN(5), Variant: r.IntN(4)}
+		if i%3 == 0 {
+			cs.Sessions = 4
+		}
+		b, _ := json.Marshal(cs)
+		cases = append(cases, b)
+	}
+	c.RunIsolated("c13-engine", cases, fw.CasesOpts{Workers: 14, CaseTimout: 10 * time.Minute})
+}
